@@ -200,6 +200,9 @@ func cmdCheck(args []string) (code int) {
 	var st map[string]any
 	if *tier == "thorough" && len(ov) == 0 && !*noEv {
 		st = runMutants(vdir, *repo, *prop)
+		if st != nil {
+			st["seeded"] = runSeeds(vdir, *repo, *prop)
+		}
 	}
 	return r.Finalize(finalizeOpts{
 		VerifDir: vdir, Known: known, Wall: time.Since(t0), Seed: seed,
